@@ -18,6 +18,7 @@ from .gitflow import PR
 
 SHAPE = ['development/4.3', 'development/5.1', 'development/10.0']
 SHAPE_S = ['development/4.3', 'stabilization/5.1.4', 'development/5.1', 'development/10.0']
+SHAPE_H = ['hotfix/4.2.17', 'development/4.3', 'development/5.1']
 
 
 def make_job(cls, repo, host, settings, use_queue=True, processed=None):
@@ -64,9 +65,9 @@ def create_configs(tier):
 def delete_configs(tier):
     C = []
 
-    def add(shape, victim, tags=(), queued=None, use_queue=True, qrefs=True):
+    def add(shape, victim, tags=(), queued=None, use_queue=True, qrefs=True, **kw):
         C.append(dict(kind='delete', shape=shape, victim=victim, tags=list(tags),
-                      queued=queued, use_queue=use_queue, qrefs=qrefs))
+                      queued=queued, use_queue=use_queue, qrefs=qrefs, **kw))
     add(SHAPE, 'development/4.3', qrefs=False)
     add(SHAPE, 'development/4.3', queued='development/5.1')          # queued elsewhere
     add(SHAPE, 'development/5.1', queued='development/5.1')          # queued on it: refuse
@@ -78,6 +79,15 @@ def delete_configs(tier):
     add(SHAPE, 'development/4.3', use_queue=False, qrefs=False)
     add(SHAPE, 'development/4.3', qrefs=True)                        # empty queue branch exists
     add(SHAPE, 'feature/x', qrefs=False)
+    # a hotfix branch has one queue per hotfix revision: q/<x.y.z.n> (n from the tags)
+    H = ['bugfix/h', 'q/w/1/4.2.17.2/bugfix/h']
+    add(SHAPE_H, 'hotfix/4.2.17', tags=['4.2.17.1'], qrefs=False,
+        extra_refs=['q/4.2.17.1', 'q/4.2.17.2'] + H, hotfix_queued=True)     # drained queue + live one: refuse
+    add(SHAPE_H, 'hotfix/4.2.17', tags=['4.2.17.1'], qrefs=False,
+        extra_refs=['q/4.2.17.2'] + H, hotfix_queued=True)                   # refuse
+    add(SHAPE_H, 'hotfix/4.2.17', tags=['4.2.17.1'], qrefs=False,
+        extra_refs=['q/4.2.17.1', 'q/4.2.17.2'])                             # two drained queues: delete
+    add(SHAPE_H, 'hotfix/4.2.17', tags=[], qrefs=False)                      # no queue at all: delete
     for c in (dict(C[0]), dict(C[5]), dict(C[9])):
         c['reject'] = True
         C.append(c)
@@ -99,6 +109,7 @@ def world(ctx, c):
         for t in GF.targets(shape, p.dst):
             refs.append(GF.qw_name(p, shape, t))
     refs.append('feature/unrelated')
+    refs += list(c.get('extra_refs', ()))
     repo = SymRepo(ctx, refs, len(refs) + 1, 6, tags=c['tags'])
     repo.log_cut = True
     if c.get('reject'):
@@ -212,7 +223,7 @@ def delete_oracle(c, repo, out, prs):
             lab = 'a refusing delete-branch job touched the remote'
         conds.append((lab, z3.BoolVal(False)))
     deleted = victim in repo.pre_remote and victim not in repo.remote
-    queued_on = bool(prs) and victim in GF.targets(shape, prs[0].dst)
+    queued_on = (bool(prs) and victim in GF.targets(shape, prs[0].dst)) or bool(c.get('hotfix_queued'))
     live_stab = bool(k) and k[0] == 'dev' and any(
         GF.parse_dest(s)[0] == 'stab' and GF.parse_dest(s)[1:3] == k[1:3] for s in shape)
     archived = bool(k) and GF.version_of(victim) in c['tags'] and k[0] != 'hotfix'
